@@ -34,7 +34,9 @@ CLAIMED = {
         text='Polygon2D.area / is_clockwise (translated from the source loop) are proved equal to the shoelace sum of the vertex loop '
              'for every vertex count; the sum is proved independent of the start vertex, negated by reversal, invariant under '
              'translation, multiplied by det M under any linear map (rotation, mirror, scale k^2) and equal to the triangle-fan and '
-             'trapezoid definitions; Face3D.area is proved to be |Newell vector . normal|/2 for any orthonormal plane frame. Perimeter, '
+             'trapezoid definitions; Face3D.area is proved to be |Newell vector . normal|/2 for any orthonormal plane frame; the generated mesh '
+             'kernels: Mesh2D._get_area is the absolute shoelace value, a plane-embedded 3D triangle has its planar area, the diagonal-cut quad '
+             'centroid is the polygon centroid. Perimeter, '
              'centroids, holes, meshes, prism volumes and closed forms are searched against exact Fraction references.',
         note='Trusted: Coq kernel, py2coq, harness. Face3D model covers faces without holes (holes validated). Shoelace/Newell are the '
              'reference definition of area; sqrt-based lengths are validated only.',
@@ -183,7 +185,9 @@ CLAIMED = {
              'coordinates, and signed areas / orientation in the plane equal those of the 2D loops - a coplanar operation is its 2D '
              'operation and keeps the operand normal; for the cell-set specification (CellSpec.v) the laws the property states: '
              'pairwise disjoint pieces whose union is the face total its area, difference = A - intersection, union + intersection = '
-             'sum, a coplanar split re-assembles both operands. Searched against that specification (exactly, by unit-cell sets, in '
+             'sum, a coplanar split re-assembles both operands; for the loop classification of _from_bool_poly (hand model LoopGroup.v, run '
+             'against it on nested loop families): for every laminar family sorted outermost-first the faces are exactly the loops of even '
+             'nesting depth and the holes of a face exactly the loops whose innermost enclosing loop is its outer loop. Searched against that specification (exactly, by unit-cell sets, in '
              'random rational planes): coplanar_union / intersection / difference / split / union_all on lattice shapes with '
              'rectangular holes (random, nested, edge-sharing, corner-touching, equal, crossing, rectangle at a reflex corner, '
              'island in a hole, operand over a hole) incl. face.area of every result face, holes inside their boundary, normals and '
@@ -219,7 +223,8 @@ CLAIMED = {
         text='Proved for every orthonormal plane frame: the generated plane embedding is an isometry and preserves dot products; the '
              '3D closest-point-on-segment routine applied to embedded data returns the embedded result of the 2D routine (same '
              'parameter, same clamp branch); point_at agrees; both siblings\' subdivide_evenly return n+1 points for all n in 1..500 '
-             '(bit-exact PrimFloat model). Every other shared zero-argument member of the six sibling pairs and the shared '
+             '(bit-exact PrimFloat model); the generated Mesh3D._quad_centroid of a plane-embedded convex quad is proved to be the embedding of '
+             'the 2D area centroid for every orthonormal frame (and run against the implementation). Every other shared zero-argument member of the six sibling pairs and the shared '
              'parametrised methods (closest point, distance, subdivision, intersection, clean-up, containment, join_segments) are '
              'compared by introspection in the XY plane and in random rational planes.',
         note='Trusted: Coq kernel (+ primitive floats), py2coq, FloatLoops.v correspondence, harness. Members beyond the proved ones '
